@@ -47,7 +47,7 @@ TruthsTOK == {t \in TruthsT : t.cues[1].tci[4] < t.fps}
 FlagSeqs == {<<0, 0>>, <<2, 2>>, <<2, 1>>, <<0, 2>>, <<1, 2>>}      \* flag of run 1, run 2 (0 only before the first set)
 \* two adjacent runs with the same flags are one run (no code separates them): not a distinct truth
 Runs2 == {rr \in {<<Run(<<X, 32, Y>>, it[1], un[1], bx[1], -1, 0), Run(<<Y, X>>, it[2], un[2], bx[2], -1, 0)>> :
-                    it \in FlagSeqs, un \in {<<0, 0>>, <<0, 2>>}, bx \in {<<0, 0>>, <<2, 1>>}} :
+                    it \in FlagSeqs, un \in {<<0, 0>>, <<0, 2>>, <<2, 1>>}, bx \in {<<0, 0>>, <<2, 1>>}} :
             <<rr[1].it, rr[1].un, rr[1].bx>> # <<rr[2].it, rr[2].un, rr[2].bx>>}
 Runs1 == {<<Run(<<X, 32, Y>>, it, un, 0, -1, 0)>> : it \in {0, 2}, un \in {0, 2}}
 TruthsR == {BaseG(25, 0, TC0, <<Cue(<<0, 0, 1, 0>>, <<0, 0, 2, 0>>, vp, jc, rows)>>) :
